@@ -17,7 +17,7 @@ RULE = ("random type graphs: 1..8 structs, 0..6 members each, shuffled key order
         "(hook) the encodeType string; a case is distinct by its document")
 TRUSTED = ["C08: Keccak-256 is an executable Gallina re-implementation, opaque to the theorems",
            "C08: serde derive of TypedDataBlob / Member (object or exact-length array form), HashMap/BTreeMap semantics, as stated in the model",
-           "C08: serde_json tokenisation outside the model (DESIGN 4.4)"]
+           "C08: serde_json's reading of the bytes is modelled in Model/JsonText.v and compared on every run (clause json-text-vs-model); which double its floating-point reader returns is compared up to 2 ulp, not modelled (DESIGN 4.4)"]
 
 MAIL = ('{"types":{"EIP712Domain":[{"name":"name","type":"string"},{"name":"version","type":"string"},{"name":"chainId","type":"uint256"},'
         '{"name":"verifyingContract","type":"address"}],"Person":[{"name":"name","type":"string"},{"name":"wallet","type":"address"}],'
